@@ -9,7 +9,7 @@ set_option linter.unusedSimpArgs false
 set_option linter.unusedVariables false
 
 /-! ## fuel monotonicity of the notation operations -/
-namespace NPat
+namespace NPat.KMono
 
 /-- `b` is defined wherever `a` is, with the same value -/
 def OLe {α} (a b : Option α) : Prop := ∀ r, a = some r → b = some r
@@ -97,7 +97,7 @@ theorem metavarsF_mono {n m : Nat} (h : n ≤ m) (p : NPat) :
   | refl => exact OLe.refl _
   | step _ ih => exact OLe.trans ih ((mono_all _).mvs p)
 
-end NPat
+end NPat.KMono
 
 namespace Kore
 
@@ -1115,8 +1115,8 @@ theorem mapF_terminates (δ : List (Nat × NPat)) : ∀ (m : List (Nat × NPat))
     obtain ⟨a, ha⟩ := Option.isSome_iff_exists.mp h1
     obtain ⟨b, hb⟩ := Option.isSome_iff_exists.mp h2
     refine ⟨max n1 n2 + 1, ?_⟩
-    have ha' := NPat.instF_mono (Nat.le_max_left n1 n2) δ v a ha
-    have hb' := NPat.mapF_mono (Nat.le_max_right n1 n2) δ r b hb
+    have ha' := NPat.KMono.instF_mono (Nat.le_max_left n1 n2) δ v a ha
+    have hb' := NPat.KMono.mapF_mono (Nat.le_max_right n1 n2) δ r b hb
     simp [NPat.mapF, ha', hb']
 
 theorem inst_node_terminates (δ : List (Nat × NPat)) (d : NPat) (m : List (Nat × NPat))
@@ -1127,8 +1127,8 @@ theorem inst_node_terminates (δ : List (Nat × NPat)) (d : NPat) (m : List (Nat
   obtain ⟨a, ha⟩ := Option.isSome_iff_exists.mp h1
   obtain ⟨b, hb⟩ := Option.isSome_iff_exists.mp h2
   refine ⟨max n1 n2 + 1, ?_⟩
-  have ha' := NPat.mapF_mono (Nat.le_max_left n1 n2) δ m a ha
-  have hb' := NPat.metavarsF_mono (Nat.le_max_right n1 n2) d b hb
+  have ha' := NPat.KMono.mapF_mono (Nat.le_max_left n1 n2) δ m a ha
+  have hb' := NPat.KMono.metavarsF_mono (Nat.le_max_right n1 n2) d b hb
   simp [NPat.instF, ha', hb']
 
 theorem conv_terminates_both (sg : Sig) (δ : List (Nat × NPat)) :
